@@ -2,7 +2,10 @@
 
 E1  TLC, exhaustive, on the sequential specification spec/seq/OpResult.tla (one action per public
     operation of OpResult<T> on two objects: default / value / copy / move construction, copy /
-    move assignment incl. self-assignment, assignment from a value, emplace, value() read and
+    move assignment incl. self-assignment, assignment from a value - a temporary (AssignValue), a
+    plain lvalue (AssignValueCopy) and a value that IS the object contained in an OpResult, in
+    particular in the destination itself (AssignValueOf: d = d.value(), the T& / const T& / T&&
+    forms; `best = std::max(best.value(), cand)`) -, emplace, value() read and
     write, has_value, operator bool, destruction): the complete abstract machine and ALL operation
     sequences of length <= 5 (thorough: <= 7).
 E2  bin/walker.py turns the state graph into call sequences covering EVERY transition; the driver
@@ -11,8 +14,10 @@ E2  bin/walker.py turns the state graph into call sequences covering EVERY trans
 E3  after every call the driver records engagement, contained value, its alignment, the returned
     values, the number of live tracked objects inside each OpResult / anywhere and the lifetime
     errors of the address-keyed registry (double destroy, construct over a live object, read of a
-    dead object); TLC validates every line against the specification (OpResultTrace.tla): value
-    semantics of DESTINATIONS only (R6), nothing live in a destroyed OpResult, nothing live and
+    dead object) and the number of payload copies / moves / assignments whose SOURCE object was no
+    longer alive (`dead`: an assignment that ends the contained object's lifetime before it reads an
+    argument aliasing it keeps every counter balanced and, for an int, even the value); TLC validates every line against the specification (OpResultTrace.tla): value
+    semantics of DESTINATIONS only (R6), no dead source, nothing live in a destroyed OpResult, nothing live and
     constructions = destructions once both are destroyed.
 E4  seeded random legal call sequences with unique values, validated the same way.
 """
@@ -21,7 +26,8 @@ import os
 SPEC = 'spec/seq'
 WHAT = 'OpResult = optional with balanced lifetimes'
 ACTIONS = ['DefaultCtor', 'ValueCtorCopy', 'ValueCtorMove', 'CopyCtor', 'MoveCtor', 'Destroy', 'CopyAssign',
-           'MoveAssign', 'AssignValue', 'Emplace', 'SetValue', 'HasValue', 'Bool', 'Value']
+           'MoveAssign', 'AssignValue', 'AssignValueCopy', 'AssignValueOf', 'Emplace', 'SetValue', 'HasValue', 'Bool',
+           'Value']
 
 
 def run(ctx):
@@ -70,6 +76,9 @@ def run(ctx):
         'operations are applied in the states std::optional allows: value() only when engaged; a moved-from '
         'OpResult is only destroyed, assigned to or emplaced, and is never compared (R6: std::optional leaves it '
         'engaged, this implementation disengages it); self-move-assignment leaves a valid but unspecified object',
+        'o = std::move(o.value()) keeps the value: std::optional assigns through, i.e. self-move-assigns the '
+        'contained T, and the tracked value types keep their value under self-move-assignment; a value is moved '
+        'out of its OWN OpResult only (never out of another one, whose contained T would be left moved-from)',
         'the contained type is noexcept-copyable/movable (lifetime-tracked int and alignas(64) struct)',
         'TLC, the JSON/IOUtils community modules and g++ are trusted',
     ]
